@@ -45,9 +45,20 @@ CHECKS.update({
         note=PMNOTE, technique="TLC invariant on the TLA+ machine's error registers + TLC-judged error texts of real failing parses against probe-recorded attempts", ref="5 (C06)"),
 })
 
+CHECKS.update({
+    "C11": dict(engine="FileSet",
+        text="FileSet.tla is a state machine of AddFile histories with the queries as operators; TLC explores every file set of the bounded "
+             "families (empty files, CRLF, lone CR, CR CR LF, no trailing newline) and checks NoOverlap, Injective, RoundTrip, UnknownOutside; every "
+             "state is exported with the expected answer of every query and replayed on fresh real file sets in two query orders; random larger "
+             "file sets recorded from the real code are validated by FileSetTrace.",
+        note="exhaustive only over contents <= 3-4 bytes of {a, LF, CR} and <= 3 files; random sets up to 8 files x 300 bytes",
+        technique="TLA+ state machine of the file set + TLC exhaustive export replayed into the real FileSet/File + TLC trace validation of recorded real file sets", ref="5 (C11)"),
+})
+
 NOT_YET = {}
 
 ENGINES = [
+    dict(name="FileSet", path="spec/FileSet.tla", serves_properties=["C11"], kind_free_text="TLA+ file-set machine; FileSetMC (export), FileSetTrace"),
     dict(name="ParsleyMachine", path="spec/ParsleyMachine.tla", serves_properties=["C01", "C02", "C04", "C06"],
          kind_free_text="TLA+ explicit-stack machine of the parsing algorithm; Derivation.tla (denotational oracle), Grammar.tla (families), "
                         "ParsleyMC (exhaustive exploration + export), ParsleyTrace (trace validation / judge)"),
